@@ -166,6 +166,10 @@ fn parse_ifdata_item(
             let mut seqitems = Vec::new();
             let mut checkpoint = parser.get_tokenpos();
             while let Ok(item) = parse_ifdata_item(parser, context, seqspec) {
+                if parser.get_tokenpos() == checkpoint {
+                    // the item matched without consuming any input (e.g. an empty taggedstruct): stop, or this never ends
+                    break;
+                }
                 seqitems.push(item);
                 checkpoint = parser.get_tokenpos();
             }
